@@ -668,6 +668,11 @@ func (x *Exec) arbitraryLike(a ArrayV) Value {
 		if s, ok := a.E[0].(Scalar); ok {
 			return Scalar{Fresh("oob", s.T.S)}
 		}
+		// an element of the same shape with arbitrary contents (struct elements of a list merged from
+		// two paths of different length: the index is out of range on this side of the merge)
+		if _, ok := a.E[0].(StructV); ok {
+			return x.havocValue(a.E[0], nil, "oob")
+		}
 	}
 	return UnknownV{nil, "out-of-range element"}
 }
